@@ -909,6 +909,9 @@ func (g *jsGen) expr(depth int, min int) *JSNode {
 			}
 		case 17:
 			base := g.expr(depth+1, pComma)
+			if r.Intn(8) == 0 {
+				base = &JSNode{K: "num", S: Pick(r, []string{"1", "1.5", "1e3", "10n", "0x1F", ".5", "5."})} // 1?.k
+			}
 			switch r.Intn(3) {
 			case 0:
 				n = &JSNode{K: "optmember", S: Pick(r, []string{"p", "q"}), Kids: []*JSNode{base}}
@@ -952,7 +955,8 @@ func (g *jsGen) expr(depth int, min int) *JSNode {
 				}
 			}
 		case 25:
-			if g.inAsync {
+			if g.inAsync || g.inFunc == 0 && g.scope.fn != nil && g.scope.fn.kind == "module" && g.noRefs == 0 {
+				// inside async functions, and at the top level of the program (module goal; every Options value)
 				n = &JSNode{K: "await", Kids: []*JSNode{g.expr(depth+1, pComma)}}
 			}
 		case 26:
